@@ -817,9 +817,36 @@ def execute(case: Dict[str, Any]) -> Dict[str, Any]:
             # amplifier (an entry that can not be evicted, caches that forget at once); what they expose
             # counts only if the same history also fails with the sizes the tool ships with.  The
             # confirmation runs in a fresh fork of the pristine reference server.
-            confirm = server.run_case(dict(strip_case(case), knobs="default", _confirming=True, keep_going=True))
             classes = {v["class"] for v in violations}
-            confirmed = [v for v in confirm.get("violations", []) if v["class"] in classes]
+            base_case = strip_case(case)
+            candidates = [base_case]
+            # ... or a sub-history of it: only the operations on the text the violation is about (fewer parses
+            # in between, so the shipped 100-entry cache still holds what the unbounded one held)
+            vi = violations[0].get("op")
+            if isinstance(vi, int) and vi < len(base_case["ops"]):
+                if base_case.get("chains"):
+                    for ch in base_case["chains"]:
+                        if vi in ch:
+                            remap = {old_i: new_i for new_i, old_i in enumerate(ch)}
+                            sub_ops = []
+                            for old_i in ch:
+                                o = dict(base_case["ops"][old_i])
+                                if o.get("x_from") is not None:
+                                    o["x_from"] = remap[o["x_from"]]
+                                sub_ops.append(o)
+                            candidates.append(dict(base_case, ops=sub_ops, chains=[list(range(len(ch)))]))
+                else:
+                    xs = base_case["ops"][vi].get("x")
+                    keep = [i for i, o in enumerate(base_case["ops"][: vi + 1]) if o.get("x") == xs and o.get("x_from") is None and o["op"] in ("FMT", "RULE", "PAT", "PARSE")]
+                    if 1 < len(keep) < vi + 1:
+                        candidates.append(dict(base_case, ops=[dict(base_case["ops"][i]) for i in keep]))
+            confirmed = []
+            for cand in candidates:
+                confirm = server.run_case(dict(cand, knobs="default", _confirming=True, keep_going=True))
+                confirmed = [v for v in confirm.get("violations", []) if v["class"] in classes]
+                if confirmed:
+                    case["ops"], case["chains"] = cand["ops"], cand.get("chains", [])
+                    break
             if confirmed:
                 stats.inc("violations_confirmed_under_shipped_cache_sizes")
                 violations = confirmed
